@@ -18,6 +18,12 @@ CLAIMED = {
    design_ref="DESIGN.md §7.4 C03",
    note="VERY NARROW: the legacy, segwit-v0 and taproot message layouts are NOT decided (hashing whole transactions through consensus_encode does not finish in CBMC, DESIGN §7.1); harnesses for them exist unregistered in c03.rs." + TRUST,
    technique=TECH),
+ "C05": dict(
+   category="model_checking",
+   text="verify_tx_amt_proofs on all-explicit 1-input/2-output transactions with symbolic asset ids (every equal/unequal pattern) and four amount triples incl. 64-bit carry cases: Ok exactly when inputs equal outputs per asset, else BalanceCheckFailed; zero-value rule (admissible and skipped on OP_RETURN scripts, rejected on spendable ones); wrong-length spent-output list; required-proof rules: confidential value without range proof => RangeProofMissing(i), confidential asset without surjection proof (also with an explicit value) => SurjectionProofMissing(i), null asset/value => error. Found that zero-value OP_RETURN outputs made every transaction fail (fixed).",
+   design_ref="DESIGN.md §7.4 C05",
+   note="libsecp replaced by a contract model: unblinded generators of distinct tags are independent, so the commitment equation holds iff per-asset sums agree (128-bit); Script::is_provably_unspendable is stubbed by constants in the balance harnesses and checked against its definition separately. NOT decided: issuance pseudo-inputs (out of memory), confidential balance, soundness/binding of real range and surjection proofs (libsecp), more inputs/outputs." + TRUST,
+   technique=TECH),
  "C06": dict(
    category="model_checking",
    text="Structure rule of blinded segwit addresses at the point where it is enforced (blech32 CheckedHrpstring::validate_segwit): accepted => payload = 33-byte key + witness program of 2..40 bytes (20|32 for v0), canonical zero padding of at most 4 bits; payload length per shard (33+p, p in {0,1,2,20,32,40,41}; more in thorough), version / leading / padding symbols symbolic. Re-derives the 0/1-byte-program defect when its fix is reverted.",
@@ -60,6 +66,12 @@ CLAIMED = {
    design_ref="DESIGN.md §2 C14",
    note="NARROWING: xpub key-source reconciliation, multi-entry map unions, the unique-id gate and k-way order insensitivity are NOT decided (BTreeMap iteration diverges in CBMC, DESIGN §7)." + TRUST,
    technique=TECH),
+ "C15": dict(
+   category="model_checking",
+   text="ControlBlock::verify_taproot_commitment compared with a reference written from BIP341 with the Elements tags (leaf hash of version||compact-size||script, sorted-pair branch hashing along a path of 0, 1 or 2 nodes, TapTweak of internal key and root, parity check) for symbolic internal key, output key, parity, leaf version, script and node hashes: the library accepts exactly when the reference does; control-block length 33+32m.",
+   design_ref="DESIGN.md §7.4 C15",
+   note="SHA-256 compression uninterpreted; EC tweak addition is an uninterpreted function of (internal key, tweak) in the libsecp model, so the claim is about WHICH (key, tweak, parity) is checked, not about EC arithmetic; tag midstates are the library's constants. NOT decided: TaprootBuilder/TaprootSpendInfo (BTreeMap/BinaryHeap), Huffman, secret-key tweaking, paths longer than 2." + TRUST,
+   technique=TECH + "; SHA-256 compression as uninterpreted function"),
  "C16": dict(
    category="model_checking",
    text="All is_* template predicates == byte-pattern reference and Address::from_script is Some exactly for the listed templates, for EVERY byte string of length 0..45; payload extraction and p2pkh/p2sh output-script round trip per template; builder: minimal push opcode for lengths around 75/76 and 255/256, push_int and script-number round trip over all |n| < 2^31, VERIFY folding table incl. 'never after a data push'. Found the missing lower bound in is_v1plus_p2witprog (fixed).",
@@ -89,10 +101,8 @@ CLAIMED = {
 NOT_APPLICABLE = {
  "C02": "the ids hash whole transactions / headers by streaming consensus_encode into a SHA-256 engine; in CBMC every `?` on Result<_, encode::Error> is an undecided branch (layout decoding of that enum is not constant-folded), so all buffer offsets become symbolic and even a 1-input/1-output txid harness exhausts 16 GB (harnesses kept unregistered in harness/src/c02.rs; DESIGN §7.1, §7.4)",
  "C04": "conclusion depends on libsecp256k1-zkp rangeproof sign/rewind, surjection proofs, ECDH and 256-bit scalar arithmetic behind FFI; cannot be encoded for a SAT/SMT solver, and with those calls stubbed the property is no longer about the real system",
- "C05": "verify_tx_amt_proofs iterates Vec<TxOut>/Vec<TxIn> and calls libsecp verification; the recording-oracle harness of the design was not built: the enabling pieces (whole-transaction values with nested heap fields under symbolic control flow) proved out of CBMC's reach in C01/C02/C12 probes (DESIGN §7.4)",
  "C09": "same as C04, plus HashMap<usize,_> with RandomState in the API and curve-order scalar arithmetic through FFI",
  "C13": "every taproot/segwit query hashes all inputs/outputs through consensus_encode into SHA engines (see C02); even the error-only obligation (PrevoutKind) explores the hashing path because Result<_, sighash::Error> is undecided at the `?` (DESIGN §7.1); harnesses kept unregistered in harness/src/c03.rs",
- "C15": "kani-compiler 0.68 aborts with an internal compiler error (intrinsics.rs:243, compare_bytes) on the lexicographic byte-array comparison used by the sorted-pair branch hashing (ControlBlock::verify_taproot_commitment, NodeInfo::combine); builder/spend-info additionally use BTreeMap/BTreeSet/BinaryHeap whose iteration does not unwind in CBMC; harness kept unregistered in harness/src/c15.rs (DESIGN §7.4)",
  "C20": "serde_json/serde_cbor and core::fmt string machinery over heap-built values are outside bounded model checking reach; the finite remainder (6-8 enum values) is trivial for a solver",
 }
 
